@@ -46,8 +46,9 @@ def rand_schema(rng, depth=0):
     if k == "boolean": return {"type": "boolean"}
     if k == "null": return {"type": "null"}
     if k == "enum":
-        return {"enum": rng.choice([[1, 2, 3], ["a", "b"], [1, "a", None], [True]])} if rng.random() < 0.5 else {"type": "string", "enum": ["x", "yy"]}
-    if k == "const": return {"const": rng.choice([1, "c", None, True, 2.5])}
+        return {"enum": rng.choice([[1, 2, 3], ["a", "b"], [1, "a", None], [True], [0, 1], [0, 5, 10], [0.0, 2.5], ["", "a"], [False], [None]])} \
+            if rng.random() < 0.6 else {"type": "string", "enum": ["x", "yy"]}
+    if k == "const": return {"const": rng.choice([1, "c", None, True, 2.5, 0, "", False, 0.0])}
     if k == "array":
         s = {"type": "array"}
         r = rng.random()
@@ -139,7 +140,7 @@ def inst_for(rng, s, depth=0):
 
 def rand_inst(rng, depth=0):
     r = rng.random()
-    if r < 0.2: return rng.choice([0, 1, 5, -3, 10, 15, 100])
+    if r < 0.2: return rng.choice([0, 1, 5, -3, 10, 15, 100, True, False, 0.0, 1.0])
     if r < 0.3: return rng.choice([1.5, 0.0, 99.9])
     if r < 0.5: return rng.choice(["", "a", "ab", "abc", "123", "2020-01-02", "x", "yy", "c"])
     if r < 0.6: return rng.choice([True, False, None])
@@ -156,12 +157,17 @@ def has_kw(s, kw):
     return False
 
 
+def _kind(x):
+    return "bool" if isinstance(x, bool) else "num" if isinstance(x, (int, float)) else "null" if x is None else type(x).__name__
+
+
 def mixes_bool_int(s):
+    """the listed finding: an enum whose members are of several kinds (so no single conversion type is inferred from it) with
+    a number or a boolean among them, or a numeric / boolean const: there Python's True == 1 lets the other kind through.
+    An enum of numbers only is converted with its members' type and is not covered"""
     if isinstance(s, dict):
         for k in ("enum",):
-            if k in s and any(isinstance(x, bool) for x in s[k]) != all(isinstance(x, bool) for x in s[k]):
-                return True
-            if k in s and any(isinstance(x, (int, float)) and not isinstance(x, bool) for x in s[k]):
+            if k in s and len({_kind(x) for x in s[k]}) > 1 and any(_kind(x) in ("bool", "num") for x in s[k]):
                 return True
         if "const" in s and isinstance(s["const"], (int, float)):
             return True
@@ -205,6 +211,31 @@ def empty_range(s):
     return False
 
 
+def typed_rest_in_object(s, v):
+    """an object property that is an array with prefixItems and a typed `items`, holding more items than the prefix, inside an
+    object whose additionalProperties is not false (the listed finding: the class's addition policy applies to the extra items
+    instead of the `items` schema)"""
+    if isinstance(s, dict):
+        props = s.get("properties")
+        if isinstance(props, dict) and isinstance(v, dict) and s.get("additionalProperties") not in (False, None):
+            for k, ps in props.items():
+                if isinstance(ps, dict) and ps.get("prefixItems") and isinstance(ps.get("items"), dict) and \
+                        isinstance(v.get(k), list) and len(v[k]) > len(ps["prefixItems"]):
+                    return True
+        for k, sub in s.items():
+            if k == "properties" and isinstance(sub, dict) and isinstance(v, dict):
+                if any(typed_rest_in_object(ps, v.get(pk)) for pk, ps in sub.items()):
+                    return True
+            elif k in ("items",) and isinstance(v, list):
+                if any(typed_rest_in_object(sub, x) for x in v):
+                    return True
+            elif k in ("anyOf", "oneOf", "allOf") and isinstance(sub, list):
+                if any(typed_rest_in_object(x, v) for x in sub):
+                    return True
+    return False
+
+
+findings.MATCHERS["schema-typed-rest-in-object"] = lambda c: not c.get("build") and typed_rest_in_object(c["schema"], c.get("value"))
 findings.MATCHERS["schema-empty-range"] = lambda c: bool(c.get("build")) and empty_range(c["schema"]) and _msg(c, "must >")
 findings.MATCHERS["schema-minProperties"] = lambda c: has_kw(c["schema"], "minProperties") and _msg(c, "enough properties", "non-empty", "is not valid under any")
 
